@@ -61,7 +61,8 @@ type c01env struct {
 	// hand-overs of payload messages and handler returns, to let the readers work off their queues before the
 	// instances are finished at the end of the case (a reader that is still dispatching when the tree goes panics
 	// in TreeNodeInstance.Tree())
-	nAccepted, nHandled int
+	nAccepted, nHandled map[string]int
+	recsSeen            map[string]*fix.Rec
 	treeOf   map[int]int
 	wantTok  map[int]string // message -> fields of the token it was addressed to
 	sent     [2]int
@@ -289,7 +290,7 @@ func c01exec(c *h.Ctx, cs *h.Case) {
 				return
 			}
 			e.mu.Lock()
-			e.nAccepted++
+			e.nAccepted[tok]++
 			if m3.V >= 2000 {
 				e.probeGot[m3.V]++
 				e.cond.Broadcast()
@@ -302,29 +303,41 @@ func c01exec(c *h.Ctx, cs *h.Case) {
 			e.handedN[m3.V]++
 			e.mu.Unlock()
 		}
+		e.mu.Lock()
+		if e.nAccepted == nil {
+			e.nAccepted, e.nHandled, e.recsSeen = map[string]int{}, map[string]int{}, map[string]*fix.Rec{}
+		}
+		e.recsSeen[tok] = rec
+		e.mu.Unlock()
 		rec.OnExit = func(d fix.Delivery) {
 			if d.Ty == 3 {
 				e.mu.Lock()
-				e.nHandled++
+				e.nHandled[tok]++
 				e.mu.Unlock()
 			}
 		}
 	}
 	onet.VerifSetHook(e.hook)
 	defer func() {
-		// the readers work off what was handed over (bounded: a message handed to an instance that was closing
-		// is never handled)
-		last, lastAt := -1, time.Now()
-		for dl := time.Now().Add(4 * time.Second); time.Now().Before(dl); time.Sleep(300 * time.Microsecond) {
+		// the readers of the live instances work off what was handed over (an instance that has been finished drops
+		// what is left in its queue)
+		for dl := time.Now().Add(4 * time.Second); time.Now().Before(dl); time.Sleep(200 * time.Microsecond) {
 			e.mu.Lock()
-			a, hd := e.nAccepted, e.nHandled
-			e.mu.Unlock()
-			if hd >= a {
-				break
+			var behind []*fix.Rec
+			for tok, rec := range e.recsSeen {
+				if e.nHandled[tok] < e.nAccepted[tok] {
+					behind = append(behind, rec)
+				}
 			}
-			if hd != last {
-				last, lastAt = hd, time.Now()
-			} else if time.Since(lastAt) > 150*time.Millisecond {
+			e.mu.Unlock()
+			busy := false
+			for _, rec := range behind {
+				if _, closing := rec.Tni.VerifC05QueueState(); !closing {
+					busy = true
+					break
+				}
+			}
+			if !busy {
 				break
 			}
 		}
